@@ -252,6 +252,9 @@ func (g *fastGenerator) genGetUnknown() {
 	g.P("// The caller may only mutate the contents of the RawFields")
 	g.P("// if the mutated bytes are stored back into the message with SetUnknown.")
 	g.P("func (x *", g.typeName, ") GetUnknown() ", protoreflectPkg.Ident("RawFields"), " {")
+	g.P("if x == nil {")
+	g.P("return nil")
+	g.P("}")
 	g.P("return x.unknownFields")
 	g.P("}")
 	g.P()
